@@ -4,6 +4,8 @@ from common import (calls_to, callee, closure_creations, closure_consumer, field
                     guards_of, ret_aggregates, field_assigns, is_diverging)
 from props.c11 import for_loops
 
+from common import iter_pipeline, closure_tree, resolve_capture
+
 PROP = "C15"
 LEVEL = "other"
 UNDECIDED = [
@@ -258,6 +260,94 @@ def rule_negation(ctx):
         ctx.violation("pattern::Atom::indices|negation|0", site(ind, 0), "Atom::indices ignores self.negative")
 
 
+def _inner_call(e, callee_name):
+    return [x for x in walk(e) if x[0] == "call" and x[1] == callee_name]
+
+
+def check_sum_chain(ctx, fn, callee_name, label, needs_empty_exit):
+    """The same conjunction written with iterator adaptors:
+         iter.map(|x| inner(x).map(u32::from)).sum::<Option<u32>>()      (Sum for Option stops at the first None)
+         iter.try_fold(0, |total, x| Some(total + widen(inner(x)?)))
+    No stage may skip, reorder or cut off elements."""
+    from cfg import decision_paths
+    crate = fn.b["crate"]
+    key0 = "%s|sum" % fn.path
+    sinks = [(bi, t) for bi, t in fn.calls(lambda t: any(str(t.get("fn")).endswith(x) for x in ("Iterator::sum", "Iterator::try_fold")))]
+    for bi, t in sinks:
+        stages = iter_pipeline(fn, t)
+        kind = str(t.get("fn")).rsplit("::", 1)[-1]
+        bad_stage = [st[0] for st in stages[1:] if st[0].startswith(("truncating:", "unknown:", "subset:")) or st[0] == "total:rev"]
+        if kind == "sum":
+            if "Option<u32>" not in str(t.get("fn_args", "")).rsplit(",", 1)[-1]:
+                continue
+            maps = [st for st in stages if st[0] == "total:map" and st[1]]
+            if len(maps) != 1:
+                continue
+            cf = get_fn(ctx.facts, crate, maps[0][1])
+            ps = decision_paths(cf)
+            oke = len(ps) == 1 and ps[0][1] is not None
+            if oke:
+                r = ps[0][1]
+                inner = _inner_call(r, callee_name)
+                # inner(..) itself, or inner(..).map(u32::from): None stays None, Some(v) becomes Some(v widened)
+                good = len(inner) == 1 and (r == inner[0] or (r[0] == "call" and str(r[1]).endswith("Option::<T>::map") and r[2][0] == inner[0]
+                                                              and r[2][1][0] == "fnitem" and str(r[2][1][1]).endswith("From::from")))
+            if not oke or not good:
+                ctx.violation(key0 + "|accumulator", site(fn, bi), "%s: the mapped value is not the inner Option score (widened): %s" % (label, show(ps[0][1])[:120] if ps else "?"))
+                return True
+            site_cf, cb = cf, cf.calls(lambda t: callee(t) == callee_name).__next__()[0]
+        else:
+            init = fn.expr_of_operand(t["args"][1])
+            clo = fn.expr_of_operand(t["args"][2])
+            if clo[0] != "closure":
+                continue
+            cf = get_fn(ctx.facts, crate, clo[1])
+            if not list(cf.calls(lambda t: callee(t) == callee_name)):
+                continue
+            ps = decision_paths(cf)
+            some_ok = none_ok = False
+            for conds, res in ps:
+                if res is None:
+                    continue
+                if res[0] == "agg" and str(res[1]).endswith("Option::Some"):
+                    v = res[2].get("0")
+                    # total + widen(payload of inner's Some)
+                    vs = strip_casts(v)
+                    if vs[0] in ("bin", "checked") and vs[1] == "Add":
+                        ops = [strip_casts(vs[2]), strip_casts(vs[3])]
+                        tot = [o for o in ops if o[0] == "arg" and o[1] == 2]
+                        oth = [o for o in ops if not (o[0] == "arg" and o[1] == 2)]
+                        if len(tot) == 1 and len(oth) == 1 and len(_inner_call(oth[0], callee_name)) == 1 and \
+                                all(x[0] in ("call", "field", "downcast", "cast", "ref", "deref", "arg", "const", "fnitem", "agg", "tuple") for x in walk(oth[0])):
+                            some_ok = True
+                elif (res[0] == "call" and str(res[1]).endswith("from_residual")) or (res[0] == "agg" and str(res[1]).endswith("Option::None")):
+                    none_ok = True
+                else:
+                    some_ok = False
+                    break
+            if not (init[0] == "const" and init[1] == 0) or not some_ok or not none_ok:
+                ctx.violation(key0 + "|accumulator", site(fn, bi), "%s: try_fold does not start at 0 / add the widened inner score / propagate None (init %s, Some-path ok %s, None-path ok %s)" % (label, show(init), some_ok, none_ok))
+                return True
+            site_cf, cb = cf, list(cf.calls(lambda t: callee(t) == callee_name))[0][0]
+        if bad_stage:
+            ctx.violation(key0 + "|early-exit", site(fn, bi), "%s: stage `%s` of the iterator chain can skip, reorder or cut off atoms/columns" % (label, bad_stage[0]))
+            return True
+        # the chain's value is what the function returns
+        rets = [fn.expr_of_rvalue(rv) for _, _, rv in ret_aggregates(fn)]
+        dest0 = t["dest"]["l"] == 0 and not t["dest"]["p"]
+        if not dest0 and not any(r[0] == "call" and r[4] == (bi, t["dest"]["l"]) for r in rets):
+            ctx.violation(key0 + "|accumulator", site(fn, bi), "%s: the summed value is not what is returned" % label)
+            return True
+        ctx.ok(site(site_cf, cb), "%s: an inner None propagates to a None result with no further matching (%s)" % (label, kind))
+        ctx.ok(site(site_cf, cb), "%s: score = 0 + Σ inner scores (u32), returned in Some (%s over %s)" % (label, kind, " → ".join(st[0] for st in stages)))
+        if needs_empty_exit:
+            em = [(b2, t2) for b2, t2 in fn.calls(lambda t: callee(t).endswith("::is_empty"))]
+            if em:
+                ctx.ok(site(fn, em[0][0]), "%s: empty pattern shortcut present" % label)
+        return True
+    return False
+
+
 def check_sum_loop(ctx, fn, callee_name, label, needs_empty_exit):
     key0 = "%s|sum" % fn.path
     loops = for_loops(fn)
@@ -266,6 +356,8 @@ def check_sum_loop(ctx, fn, callee_name, label, needs_empty_exit):
         if any(bi in body for bi, t in fn.calls(lambda t: callee(t) == callee_name)):
             target = (h, body, nxt)
     if target is None or target[2] is None:
+        if check_sum_chain(ctx, fn, callee_name, label, needs_empty_exit):
+            return
         ctx.violation(key0 + "|loop", site(fn, 0), "%s does not iterate over its atoms/columns calling %s" % (label, callee_name))
         return
     h, body, nxt = target
@@ -394,12 +486,40 @@ def rule_stable_sort(ctx):
         if "unstable" in c:
             ctx.violation("%s|sort|stability" % name, site(fn, bi), "match_list sorts with %s: equal scores may be reordered (the order of equal-score inputs must be preserved)" % c.rsplit("::", 1)[1])
             continue
-        if not c.endswith("::sort_by_key"):
-            ctx.violation("%s|sort|callee" % name, site(fn, bi), "match_list sorts with %s; expected the stable sort_by_key(Reverse(score))" % c)
+        if c.endswith("::sort_by"):
+            # stable sort with a comparator: must order by descending score = cmp(rhs.score, lhs.score)
+            clo = fn.expr_of_operand(t["args"][1])
+            okc = False
+            if clo[0] == "closure":
+                from cfg import decision_paths
+                cf = get_fn(facts, M, clo[1])
+                ps_ = decision_paths(cf)
+                if len(ps_) == 1 and ps_[0][1] is not None:
+                    r = ps_[0][1]
+                    if r[0] == "call" and str(r[1]).endswith("::cmp") and len(r[2]) == 2:
+                        def side(x):
+                            """(which closure argument, is its score component)"""
+                            x = peel(x)
+                            sc = False
+                            while x[0] in ("ref", "deref", "field", "cast"):
+                                if x[0] == "field" and x[2] == "1":
+                                    sc = True
+                                x = peel(x[2] if x[0] == "cast" else x[1])
+                            return (x[1] if x[0] == "arg" else None), sc
+                        (a0, s0), (a1, s1) = side(r[2][0]), side(r[2][1])
+                        okc = s0 and s1 and a0 == 3 and a1 == 2
+            if okc:
+                ctx.ok(site(fn, bi), "stable sort_by with comparator rhs.score.cmp(lhs.score) (descending score)")
+            else:
+                ctx.violation("%s|sort|key" % name, site(fn, bi), "sort comparator is not `rhs.score.cmp(&lhs.score)` (descending score)")
+            clo = None
+        elif not c.endswith("::sort_by_key"):
+            ctx.violation("%s|sort|callee" % name, site(fn, bi), "match_list sorts with %s; expected a stable sort by descending score" % c)
             continue
-        clo = fn.expr_of_operand(t["args"][1])
-        okk = False
-        if clo[0] == "closure":
+        else:
+            clo = fn.expr_of_operand(t["args"][1])
+        okk = clo is None
+        if clo is not None and clo[0] == "closure":
             cf = get_fn(facts, M, clo[1])
             r = ret_aggregates(cf)
             if len(r) == 1:
@@ -408,9 +528,9 @@ def rule_stable_sort(ctx):
                     inner = list(e[2].values())[0]
                     if any(x[0] == "field" and x[2] == "1" for x in walk(inner)):
                         okk = True
-        if okk:
+        if okk and clo is not None:
             ctx.ok(site(fn, bi), "stable sort_by_key with key Reverse(score)")
-        else:
+        elif not okk:
             ctx.violation("%s|sort|key" % name, site(fn, bi), "sort key is not Reverse(score of the tuple)")
         # filter_map over score(..) keeps the item itself
         fm = [(b_, t_) for b_, t_ in fn.calls(lambda t: callee(t).endswith("Iterator::filter_map"))]
